@@ -1,5 +1,5 @@
-(* C14 -- facts about the concrete tables of Gen/GenCodegen.v: witnesses for the statements that are still false of the
-   formatter, and the former counterexamples (repaired in /repo) as regression examples. *)
+(* C14 -- facts about the concrete tables of Gen/GenCodegen.v: witnesses for the statement that is still false of the
+   formatter (floats), and the former counterexamples (repaired in /repo) as regression examples. *)
 From Coq Require Import List NArith ZArith Bool Arith Lia.
 From PV Require Import Lib.ListX Model.FmtLit Model.FmtPratt Model.Fmt Model.FmtInst Proofs.FmtPrattProofs Proofs.FmtProofs Proofs.FmtLitProofs.
 Import ListNotations.
@@ -16,11 +16,24 @@ Proof. vm_compute. reflexivity. Qed.
 Definition ascii_alpha_f (c : N) : bool := in_ranges letters c.
 Definition ascii_alnum_f (c : N) : bool := in_ranges alnum_ascii c.
 
-(* write_ident_part still leaves the wildcard bare: alias `*` is printed as * *)
-Lemma write_ident_refuted :
-  exists s, contains c_backtick s = false /\
-    lex_word ascii_alpha_f ascii_alnum_f I_prql (write_ident_part I_prql s ++ [32]) <> Some (WIdent s, [32]).
-Proof. exists [42]. split; [reflexivity|]. vm_compute. discriminate. Qed.
+(* the wildcard as a name: write_ident_part now puts it in backticks (commit 328740d); before, alias `*` was printed bare *)
+Lemma star_witness_lexes :
+  write_ident_part I_prql [42] = bt [42] /\
+  lex_word ascii_alpha_f ascii_alnum_f I_prql (write_ident_part I_prql [42] ++ [32]) = Some (WIdent [42], [32]).
+Proof. vm_compute. split; reflexivity. Qed.
+
+(* positions repaired by commits 95d15ad, 1b7b9df, 2a611aa (BinOp index 5 = Add, UnOp index 0 = Neg) *)
+Definition par_atom (c : N) : expr := EAtom (AParam [c]).
+(* a + (x = b)   -(x = a)   (x = a)..b   (x = f) a   f n:(x = a) b   ($a)..b   (-$a)..   f ((-$a)..b) *)
+Definition alias_witnesses : list expr :=
+  [EBin 5 (idn 97) (EAlias [120] (idn 98));
+   EUn 0 (EAlias [120] (idn 97));
+   ERng (EAlias [120] (idn 97)) (idn 98);
+   ECall (EAlias [120] (idn 102)) [idn 97];
+   ECall (idn 102) [ENamed [110] (EAlias [120] (idn 97)); idn 98];
+   ERng (par_atom 97) (idn 98);
+   ERngL (EUn 0 (par_atom 97));
+   ECall (idn 102) [ERng (EUn 0 (par_atom 97)) (idn 98)]].
 
 Lemma float_refuted : exists f, flt_wf f = true /\ lex_number (fmt_float f) <> Some (NFloat f, []).
 Proof. exists (FFin 1 0). split; [reflexivity|]. vm_compute. discriminate. Qed.
